@@ -661,16 +661,21 @@ impl Cache {
                     if let Some(checker) = self.consistency_checker.as_ref() {
                         let mut tmp = get_tempfile()?;
 
-                        match populate(&mut tmp, None) {
-                            Err(e) if e.kind() == ErrorKind::NotFound => {
-                                return Ok(file);
+                        // `NotFound` only skips the comparison: the
+                        // hit must still be promoted if so instructed.
+                        let compare = match populate(&mut tmp, None) {
+                            Err(e) if e.kind() == ErrorKind::NotFound => false,
+                            ret => {
+                                ret?;
+                                true
                             }
-                            ret => ret?,
                         };
 
-                        tmp.seek(SeekFrom::Start(0))?;
-                        checker(&mut file, &mut tmp)?;
-                        file.seek(SeekFrom::Start(0))?;
+                        if compare {
+                            tmp.seek(SeekFrom::Start(0))?;
+                            checker(&mut file, &mut tmp)?;
+                            file.seek(SeekFrom::Start(0))?;
+                        }
                     }
 
                     return if matches!(j, CacheHitAction::Accept) {
